@@ -622,8 +622,12 @@ type gpolicy struct {
 	def   routing.Action
 }
 
-func genIAM(r *vgen.Rand) (bool, addr.IA) {
+// genIAM draws an IA matcher; with hint != 0 it is mostly one that matches hint.
+func genIAM(r *vgen.Rand, hint addr.IA) (bool, addr.IA) {
 	ia := addr.MustParseIA(iaPool[r.Intn(len(iaPool))])
+	if hint != 0 && r.Chance(2, 3) {
+		ia = hint
+	}
 	switch r.Intn(6) {
 	case 0, 1:
 		ia = 0
@@ -632,12 +636,12 @@ func genIAM(r *vgen.Rand) (bool, addr.IA) {
 	case 3:
 		ia = addr.MustIAFrom(0, ia.AS())
 	}
-	return r.Chance(1, 5), ia
+	return r.Chance(1, 6), ia
 }
 
 var commentPool = []string{"", "", "", "site A", "x", " two  spaces", "a # b", "#", "tab\there", "ends with cr\r", "é", "1.2.3.0/24 accept", "!"}
 
-func genPolicy(r *vgen.Rand, q *netip.Prefix, image bool) *gpolicy {
+func genPolicy(r *vgen.Rand, q *netip.Prefix, image bool, from, to addr.IA, adv bool) *gpolicy {
 	p := &gpolicy{def: vgen.Pick(r, routing.Accept, routing.Reject, routing.Reject, routing.UnknownAction)}
 	n := r.Range(0, 6)
 	for i := 0; i < n; i++ {
@@ -646,8 +650,11 @@ func genPolicy(r *vgen.Rand, q *netip.Prefix, image bool) *gpolicy {
 		if !image && r.Chance(1, 12) {
 			g.action = routing.UnknownAction
 		}
-		g.fromNeg, g.from = genIAM(r)
-		g.toNeg, g.to = genIAM(r)
+		if adv && r.Chance(2, 3) {
+			g.action = routing.Advertise
+		}
+		g.fromNeg, g.from = genIAM(r, from)
+		g.toNeg, g.to = genIAM(r, to)
 		k := r.Range(1, 3)
 		for j := 0; j < k; j++ {
 			v6 := r.Chance(1, 4)
@@ -657,6 +664,9 @@ func genPolicy(r *vgen.Rand, q *netip.Prefix, image bool) *gpolicy {
 			g.nets = append(g.nets, genPrefix(r, v6, q, r.Chance(4, 5)))
 		}
 		g.netNeg = r.Chance(1, 5)
+		if adv {
+			g.netNeg = r.Chance(1, 3)
+		}
 		if g.action == routing.Advertise && r.Chance(1, 2) {
 			g.nextHop = randAddr(r, r.Chance(1, 3))
 		}
@@ -1071,7 +1081,6 @@ func main() {
 
 	// 3. Policy.Match
 	nm := run.Count(170, 10000)
-	var imagePolicies []*gpolicy
 	for i := 0; i < nm; i++ {
 		r := rng.Fork(uint64(2000000 + i))
 		v6 := r.Chance(1, 4)
@@ -1079,9 +1088,9 @@ func main() {
 		if r.Chance(1, 3) {
 			q = netip.PrefixFrom(q.Addr(), vgen.Pick(r, 0, 4, 8)).Masked()
 		}
-		g := genPolicy(r, &q, false)
 		from := addr.MustParseIA(iaPool[r.Intn(len(iaPool))])
 		to := addr.MustParseIA(iaPool[r.Intn(len(iaPool))])
+		g := genPolicy(r, &q, false, from, to, false)
 		var addrs []netip.Addr
 		addrs = append(addrs, boundary(q)...)
 		for _, rl := range g.rules {
@@ -1132,9 +1141,9 @@ func main() {
 	na := run.Count(60, 3000)
 	for i := 0; i < na; i++ {
 		r := rng.Fork(uint64(3000000 + i))
-		g := genPolicy(r, nil, false)
 		from := addr.MustParseIA(iaPool[r.Intn(len(iaPool))])
 		to := addr.MustParseIA(iaPool[r.Intn(len(iaPool))])
+		g := genPolicy(r, nil, false, from, to, true)
 		if !run.Want() {
 			run.Skip()
 			continue
@@ -1174,7 +1183,7 @@ func main() {
 	nt := run.Count(260, 15000)
 	for i := 0; i < nt; i++ {
 		r := rng.Fork(uint64(4000000 + i))
-		g := genPolicy(r, nil, true)
+		g := genPolicy(r, nil, true, 0, 0, r.Chance(1, 3))
 		if len(g.rules) > 4 {
 			g.rules = g.rules[:4]
 		}
@@ -1192,9 +1201,6 @@ func main() {
 		case 3:
 			text, kind = mutateText(r, respell(r, text)), "text-mutated"
 		}
-		if len(imagePolicies) < 2000 && i%2 == 0 {
-			imagePolicies = append(imagePolicies, g)
-		}
 		if !run.Want() {
 			run.Skip()
 			continue
@@ -1209,7 +1215,7 @@ func main() {
 	nmar := run.Count(90, 5000)
 	for i := 0; i < nmar; i++ {
 		r := rng.Fork(uint64(5000000 + i))
-		g := genPolicy(r, nil, true)
+		g := genPolicy(r, nil, true, 0, 0, r.Chance(1, 3))
 		if len(g.rules) > 5 {
 			g.rules = g.rules[:5]
 		}
